@@ -164,3 +164,151 @@ class CallNotifiers(CContract):
         return [("silent", lambda r, s: z3.And(r == 0, s.ghost["ncalls"] == 0)),
                 ("notifies", lambda r, s: z3.And(r == 0, s.ghost["ncalls"] >= 1)),
                 ("handler-fails", lambda r, s: z3.BoolVal(z3.is_int_value(z3.simplify(r)) and z3.simplify(r).as_long() == -1))]
+
+
+# ---------------------------------------------------------------------------------------------------------------------
+# default_value_for: C10 'the default is computed for THIS instance: mutable defaults are fresh copies, callables get the
+# object, dynamic defaults go through the trait's validator'
+# ---------------------------------------------------------------------------------------------------------------------
+@register
+class DefaultValueFor(CContract):
+    qualname = "default_value_for"
+    properties = ("C10", "C19")
+    extra_properties = ("C18",)
+    side_props = {"valid-deref": ("C18",), "bounds": ("C18",)}
+    own = True
+    overloads = tuple("kind:%d" % k for k in range(11)) + ("kind:out-of-range",)
+    assumptions = ("A-API", "A-HAVOC", "A-ALLOC", "A-INT",
+                   "A-TYPEINV (established by _trait_set_default_value): kind 7 carries a (callable, args, kw) tuple; kinds 5-9 a non-NULL default_value",
+                   "_warn_on_attribute_error by summary: it only re-labels a pending AttributeError (error indicator stays set, no references kept)",
+                   "trait->validate through its family contract",
+                   "A-INIT: the container classes were registered (_ctraits_list_classes runs when traits is imported)",
+                   "A-CB: the default-computing callable does not redefine the trait itself")
+
+    def configure(self, cx, ex, ov):
+        from contracts.c.setattr import install_families
+        install_families(cx)
+        cx.summaries.pop("default_value_for", None)
+        trait = z3.Const("trait", Obj)
+
+        def keep(api, before, after):
+            # A-CB: the callable computing a default does not redefine the trait whose default it computes
+            f = api.ex.field_array
+            return after.assume(*[f(after, n)[trait] == f(before, n)[trait] for n in ("flags", "validate", "py_validate", "handler", "default_value")])
+        cx.havoc_keeps = keep
+
+        def warn(ex2, args, st, k):
+            e = cx.fresh("exc", INT)
+            relabel = z3.And(args[0] == NULL, st.exc == EXC["AttributeError"])
+            return k(None, st.with_exc(z3.If(relabel, e, st.exc)).assume(z3.Implies(relabel, e >= 1)))
+        cx.summaries["_warn_on_attribute_error"] = warn
+
+        def seq_list(ex2, args, st, k):
+            """PySequence_List(o): a NEW list with the items of o, or NULL with an error (o == NULL: SystemError)"""
+            o = args[0]
+            st = st.log(("copy", "list", o))
+            def ok(r, s):
+                known = [v for v in list(s.env.values()) + [o] if z3.is_expr(v) and v.sort() == Obj]
+                return k(r, s.assume(A.is_exact(r, "PyList_Type"), *[r != v for v in known]))
+            return cx.branch(st, o == NULL, lambda s: k(NULL, s.with_exc(EXC["SystemError"])),
+                             lambda s: ex2.api.python_call(s, "PySequence_List", ok, lambda s2: k(NULL, s2), result_prefix="newlist"))
+        cx.summaries["PySequence_List"] = seq_list
+
+        def dict_copy(ex2, args, st, k):
+            o = args[0]
+            st = st.log(("copy", "dict", o))
+            def ok(r, s):
+                known = [v for v in list(s.env.values()) + [o] if z3.is_expr(v) and v.sort() == Obj]
+                return k(r, s.assume(A.is_exact(r, "PyDict_Type"), *[r != v for v in known]))
+            return cx.branch(st, o == NULL, lambda s: k(NULL, s.with_exc(EXC["SystemError"])),
+                             lambda s: ex2.api.python_call(s, "PyDict_Copy", ok, lambda s2: k(NULL, s2), result_prefix="newdict"))
+        cx.summaries["PyDict_Copy"] = dict_copy
+
+    def c_setup(self, cx, ex, ov):
+        trait, obj, name = z3.Consts("trait obj name", Obj)
+        st = CSt().assume(trait != NULL, obj != NULL, name != NULL)
+        kind = ex.field_array(st, "default_value_type")[trait]
+        dv = ex.field_array(st, "default_value")[trait]
+        tag = ov.split(":")[1]
+        if tag == "out-of-range":
+            st = st.assume(z3.Or(kind < 0, kind > 10))
+        else:
+            st = st.assume(kind == int(tag))
+        st = st.assume(z3.Implies(kind == 7, z3.And(dv != NULL, A.is_inst(dv, "PyTuple_Type"), A.tuple_len(dv) == 3,
+                                                    A.tuple_item(dv, z3.IntVal(0)) != NULL, A.tuple_item(dv, z3.IntVal(1)) != NULL,
+                                                    A.tuple_item(dv, z3.IntVal(2)) != NULL)),
+                       z3.Implies(z3.Or(kind == 5, kind == 6, kind == 8, kind == 9), dv != NULL),
+                       ex.field_array(st, "handler")[trait] != NULL,
+                       # module state set once by _ctraits_list_classes when traits is imported
+                       *[cx.const_obj(c) != NULL for c in ("TraitListObject", "TraitDictObject", "TraitSetObject")])
+        return st, [trait, obj, name], dict(trait=trait, obj=obj, name=name, kind=kind, dv=dv, st0=st, witness={"kind": kind})
+
+    def c_post(self, cx, ex, ov, info, ret, st):
+        trait, obj, name, kind, dv = (info[k] for k in ("trait", "obj", "name", "kind", "dv"))
+        st0 = info["st0"]
+        calls = [r for r in st.trace if r[0] == "call"]
+        copies = [r for r in st.trace if r[0] == "copy"]
+        validates = [r for r in st.trace if r[0] == "validate"]
+        res = st.ghost.get("last_call_result")
+        tag = ov.split(":")[1]
+        out = [("post:validator-only-for-dynamic-defaults", z3.BoolVal(not validates or tag == "8"))]
+        if tag != "out-of-range":
+            out.append(("post:NULL-iff-error-indicator-set", (ret == NULL) == (st.exc != 0)))
+        if tag in ("0", "1"):
+            out.append(("post:constant-default-is-the-stored-object-or-None", z3.And(ret == z3.If(dv == NULL, A.NONE, dv), z3.BoolVal(not calls and not copies))))
+        elif tag == "2":
+            out.append(("post:object-default-is-the-object-itself", z3.And(ret == obj, z3.BoolVal(not calls and not copies))))
+        elif tag in ("3", "4"):
+            out.append(("post:mutable-default-is-copied-for-this-instance", z3.And(
+                z3.BoolVal(len(copies) == 1 and copies[0][1] == ("list" if tag == "3" else "dict") and not calls),
+                copies[0][2] == dv if copies else z3.BoolVal(False), z3.Implies(ret != NULL, ret != dv))))
+        elif tag in ("5", "6", "9"):
+            cls = {"5": "TraitListObject", "6": "TraitDictObject", "9": "TraitSetObject"}[tag]
+            c = calls[0] if calls else None
+            out.append(("post:container-object-built-for-this-object-and-name", z3.And(
+                z3.BoolVal(len(calls) == 1), c[1] == cx.const_obj(cls), A.tuple_len(c[2]) == 4,
+                A.tuple_item(c[2], z3.IntVal(0)) == ex.field_array(st0, "handler")[trait], A.tuple_item(c[2], z3.IntVal(1)) == obj,
+                A.tuple_item(c[2], z3.IntVal(2)) == name, A.tuple_item(c[2], z3.IntVal(3)) == dv) if c else z3.BoolVal(False)))
+            out.append(("post:its-result-is-the-default", z3.Implies(ret != NULL, ret == res if res is not None else z3.BoolVal(False))))
+        elif tag == "7":
+            c = calls[0] if calls else None
+            kw = A.tuple_item(dv, z3.IntVal(2))
+            out.append(("post:callable-called-with-stored-args-and-kw", z3.And(
+                z3.BoolVal(len(calls) == 1), c[1] == A.tuple_item(dv, z3.IntVal(0)), c[2] == A.tuple_item(dv, z3.IntVal(1)),
+                c[3] == z3.If(kw == A.NONE, NULL, kw)) if c else z3.BoolVal(False)))
+            out.append(("post:its-result-is-the-default", z3.Implies(ret != NULL, ret == res if res is not None else z3.BoolVal(False))))
+        elif tag == "8":
+            c = calls[0] if calls else None
+            has_validator = ex.field_array(st0, "validate")[trait] != 0
+            orig = (ex.field_array(st0, "flags")[trait] & 0x8) != 0
+            out.append(("post:callable-called-once-with-the-object", z3.And(
+                z3.BoolVal(len(calls) == 1), c[1] == dv, A.tuple_len(c[2]) == 1, A.tuple_item(c[2], z3.IntVal(0)) == obj) if c else z3.BoolVal(False)))
+            out.append(("post:dynamic-default-validated-at-most-once", z3.BoolVal(len(validates) <= 1)))
+            if validates:
+                v = validates[0]
+                out.append(("post:validator-gets-the-computed-default", z3.And(v[1] == trait, v[2] == obj, v[3] == name,
+                                                                                v[4] == res if res is not None else z3.BoolVal(False))))
+                val = st.ghost.get("validated")
+                if val is not None:
+                    out.append(("post:validated-default-is-stored-unless-original-value-is-asked-for",
+                                z3.Implies(ret != NULL, ret == z3.If(orig, res, val))))
+                if st.ghost.get("validate_failed"):
+                    out.append(("raise:default-rejected-by-the-validator-is-an-error", ret == NULL))
+            else:
+                out.append(("post:unvalidated-only-without-validator-or-after-a-failed-call", z3.Or(z3.Not(has_validator), ret == NULL)))
+                out.append(("post:its-result-is-the-default", z3.Implies(ret != NULL, ret == res if res is not None else z3.BoolVal(False))))
+        elif tag == "10":
+            out.append(("post:disallowed-default-is-ValueError", z3.And(ret == NULL, st.exc == EXC["ValueError"])))
+        else:
+            out.append(("post:unknown-kind-yields-no-value", ret == NULL))
+        if st.own is not None:
+            o = z3.Const("o!own", Obj)
+            out.append(("own:reference-neutral", z3.ForAll([o], st.own[o] == info["own0"][o] + z3.If(
+                z3.And(o == ret, ret != NULL, z3.Not(A.immortal(ret))), 1, 0)), {}, ("C18",)))
+        return out
+
+    def covers(self, cx, ov, info):
+        tag = ov.split(":")[1]
+        if tag in ("10", "out-of-range"):
+            return [("refuses", lambda r, s: r == NULL)]
+        return [("yields", lambda r, s: r != NULL)]
